@@ -96,12 +96,12 @@ func (c *Chain[I, O]) compile(ctx context.Context, option *graphCompileOptions) 
 // addEndIfNeeded add END edge of the chain/graph.
 // only run once when compiling.
 func (c *Chain[I, O]) addEndIfNeeded() error {
-	if c.hasEnd {
-		return nil
-	}
-
 	if c.err != nil {
 		return c.err
+	}
+
+	if c.hasEnd {
+		return nil
 	}
 
 	if len(c.preNodeKeys) == 0 {
